@@ -158,6 +158,8 @@ class C18(Check):
         Q = tier == "quick"
         out = []
         for sp in c02.CHECK.spaces(tier):
+            if sp.runner == "run_reuse":
+                continue  # histories on one simplifier object: C02's own (their members are not single queries)
             out.append(Space("wf:" + sp.name, sp.bounds, sp.cases, runner="run_wf"))
         out.append(Space("oddapp<=7", qspaces.describe("oddapp", 3, 7, qspaces.POOL2),
                          (lambda: qspaces.enumerate_sources("oddapp", 3, 7, qspaces.POOL2, annot=_oor_annot)),
